@@ -15,6 +15,9 @@ class DirectFace(Face):
         self._closed = None
 
     async def open(self):
+        d = getattr(self, 'open_delay_us', 0)
+        if d:
+            await asyncio.sleep(d / 1e6)        # connecting takes a while (a handshake, a slow peer)
         self._closed = asyncio.get_running_loop().create_future()
         self.running = True
 
